@@ -76,6 +76,9 @@ class ConcFamily(Family):
             [[L(77, "alice", tag="5")], [A(100, "1", "l", "77")], ["R:f"], [A(101, "1", "o", "77")]],
             [[L(77, "alice", tag="5"), L(88, "bob", tag="6")], [A(100, "1", "l", "77"), A(200, "2", "l", "88")], [A(101, "1", "d", "77")]],
             [[A(100, "1", "l", "77"), L(77, "alice", tag="5")], [A(101, "1", "o", "77"), A(102, "1", "o", "77")]],
+            # records of ONE session delivered by two Go routines (the parser and the maintenance loop) while its login waits
+            [[L(77, "alice", tag="5")], [A(100, "1", "l", "77")], [A(101, "1", "o", "77")]],
+            [[L(77, "alice", tag="5"), A(100, "1", "l", "77")], [A(101, "1", "o", "77")], [A(102, "1", "d", "77")]],
         ]
         for th in base:
             cs.append({"threads": th, "max": 2500 if tier == "quick" else 30000})
@@ -116,6 +119,10 @@ class ConcFamily(Family):
             # IsReady / WaitForReady's view: two workers mark the shared component ready while another is pending
             [["add:" + a, "add:" + b, "ready:" + a], ["ready:" + a], ["isready", "get"]],
             [["add:" + a, "ready:" + a], ["add:" + a], ["isready", "isready"]],
+            # one writer that never makes both components ready at the same time, against one request:
+            # a torn iteration would see a = ok (early) and b = ok (late)
+            [["add:" + a, "ready:" + a, "add:" + b, "add:" + a, "ready:" + b], ["get"]],
+            [["add:" + a, "ready:" + a, "add:" + b, "add:" + a, "ready:" + b], ["isready"]],
         ]
         for th in base:
             cs.append({"threads": th, "max": 3000 if tier == "quick" else 30000})
